@@ -19,7 +19,7 @@ CHECKS = {
  "C04": ("offline reference-model monitor: the start-time recurrence (schedule+drift / previous end / blocking arrival) re-evaluated from primary record fields of generated overrun-heavy graphs",
          "Held-on-what-was-observed: every recorded step start equals the recomputed law within 5e-7, ts_end = ts_start + delay, deterministic delays exact, stochastic delays within a 6.5-sigma bound of the configured distribution, FREQUENCY spacing and PHASE grid-return clauses; graphs cover both scheduling modes, advance, late blocking arrivals.", NOTE_ASYNC, "4/C04"),
  "C05": ("bounded-progress monitor with quiescent-deadlock detector and deterministic gates at guarded hooks (supervisor held at sync.enter / sync.before_wait while stop() runs), plus offline isolation checker (episode nonce, seq/time from 0)",
-         "Held-on-what-was-observed: on protocol-valid histories over G_live + the repository's own topology and both clocks no lifecycle call ended in a quiescent deadlock, including the forced lost-wake-up interleaving; every finished episode started from seq 0 / time 0 and saw only its own episode's messages. 'Always returns' is NOT claimed beyond the explored histories and graph class.", NOTE_ASYNC, "4/C05"),
+         "Held-on-what-was-observed: on protocol-valid histories over the supported class of DESIGN 2.4 (G_live, the repository's own topology, G_wide = no blocking fast->slow edge, and the ring / blocking-cycle / fan / tie families) and both clocks no lifecycle call ended in a quiescent deadlock, including the forced lost-wake-up interleaving; every finished episode started from seq 0 / time 0 and saw only its own episode's messages. 'Always returns' is NOT claimed beyond the explored histories and graph class (graphs with a blocking fast->slow edge can hit the documented num_tokens limit).", NOTE_ASYNC, "4/C05"),
  "C06": ("execution-count monitor: ordered io_callback inside the witness step reports (node, seq seen, nonce); the multiset is compared with the episode record (async) and the compiled schedule (all modes)",
          "Held-on-what-was-observed: every recorded/scheduled tick executed exactly once with its own sequence number, masked slots, overridden supervisor steps, the supervisor at step 0 and the final skipped tick executed zero times; jit on/off per node, carried-over episode starts, rollout and reset/step driving.", NOTE_ASYNC + " " + NOTE_COMP, "4/C06"),
  "C07": ("offline checker of the compiled schedule (Graph.timings) against an independent recomputation of windows, required vertex set and dependency order from graphs_raw",
